@@ -124,5 +124,21 @@ func vIte8(c bool, a, b uint8) uint8 {
 	return b
 }
 func vSetIdleHook(f func())          {}
+type vCrashedT struct{}
+
+func vCrashNow() { panic(vCrashedT{}) }
+func vRunToCrash(f func()) (crashed bool) {
+	defer func() {
+		if r := recover(); r != nil {
+			if _, ok := r.(vCrashedT); ok {
+				crashed = true
+				return
+			}
+			panic(r)
+		}
+	}()
+	f()
+	return false
+}
 func vIsSymbolic(x uint64) bool        { return false }
 func vChanPending(ch interface{}) int { return 0 }
